@@ -26,6 +26,11 @@ class Layout(object):
     def definition(self, desc, style):
         if desc is None:
             return None
+        if self.kind == "class" and "." in self.name:
+            # a class nested in another one (class Model: class Config): the target is Model.Config
+            outer, inner = self.name.split(".")
+            return ("class %s(object):\n    \"\"\" %s class \"\"\"\n\n    marker: int = 1\n\n" % (outer, outer)
+                    + render.render_class(desc, inner, default_doc=style.get("default_doc", False), plain=style.get("plain_attrs", False), indent="    "))
         if self.kind == "class":
             return render.render_class(desc, self.name, default_doc=style.get("default_doc", False), plain=style.get("plain_attrs", False))
         if self.kind == "argparse_function":
@@ -46,7 +51,7 @@ class Layout(object):
         if state == "empty":
             return ""
         if state == "absent":
-            if "." in self.name and self.kind == "function" and style.get("absent_keeps_class", True):
+            if "." in self.name and self.kind in ("function", "class") and style.get("absent_keeps_class", True):
                 cls = self.name.split(".")[0]
                 holder = "class %s(object):\n    \"\"\" %s class \"\"\"\n\n    marker: int = 1" % (cls, cls)
                 return render.assemble(self.before, holder, [u for u in self.after if u["kind"] not in ("rebind_ann",)], self.trailing_newline, self.module_doc, self.header)
@@ -117,6 +122,8 @@ class Project(object):
         self.versions = [render.gen_desc(ch, "conservative" if ch.chance("profile", 0.8) else "wide", 1, 4, retdoc_p=0.25 if focus == "C11" else None)]
         self.cur = 0
         self.names = {"class": ch.choice("cname", CLASS_NAMES), "argparse_function": "set_cli_args"}
+        if ch.chance("nested_class", 0.1):
+            self.names["class"] = "Model." + self.names["class"]
         fname = ch.choice("fname", FUNC_NAMES)
         self.names["function"] = ("C." + fname) if ch.chance("method", 0.4) else fname
         self.files = {}  # rel -> dict(kind, layout, style)
@@ -124,7 +131,7 @@ class Project(object):
         base = {"class": "cls.py", "function": "fn.py", "argparse_function": "ap.py"}
         for kind in KINDS:
             rels = [base[kind]]
-            if ch.chance("second." + kind, 0.35 if focus == "C11" and kind == "function" else 0.12):
+            if ch.chance("second." + kind, 0.35 if focus == "C11" and kind == "function" else 0.4 if kind == "class" and "." in self.names["class"] else 0.12):
                 rels.append(base[kind].replace(".py", "2.py"))
             for rel in rels:
                 self.files[rel] = {"kind": kind, "layout": gen_layout(ch, rel, kind, self.names[kind], self.versions[0], rich),
@@ -132,7 +139,7 @@ class Project(object):
                 self.by_kind[kind].append(rel)
         self.crlf = {rel for rel in sorted(self.files) if ch.chance("crlf." + rel, 0.06)}
         # two kinds may live in one file: the class file is then also named as a file of the function kind
-        self.shared = ch.chance("shared", 0.1) and "." not in self.names["function"]
+        self.shared = ch.chance("shared", 0.1) and "." not in self.names["function"] and "." not in self.names["class"]
         self.shared_truth = focus == "C10" and ch.chance("shared_truth", 0.06)
 
     def desc(self):
